@@ -872,18 +872,21 @@ impl<'a> WriteTxn<'a> {
                 })?;
             }
 
-            for edge in run.iter_edges() {
-                wal.append(&WalRecord::CreateEdge {
-                    src: edge.src,
-                    rel: edge.rel,
-                    dst: edge.dst,
-                })?;
-            }
+            // Tombstones go first: replay feeds the records to a fresh memtable in log order,
+            // and a memtable drops a relationship created *before* a tombstone of the same key.
+            // Relationships that survive in this run were created after any such tombstone.
             for node in run.iter_tombstoned_nodes() {
                 wal.append(&WalRecord::TombstoneNode { node })?;
             }
             for edge in run.iter_tombstoned_edges() {
                 wal.append(&WalRecord::TombstoneEdge {
+                    src: edge.src,
+                    rel: edge.rel,
+                    dst: edge.dst,
+                })?;
+            }
+            for edge in run.iter_edges() {
+                wal.append(&WalRecord::CreateEdge {
                     src: edge.src,
                     rel: edge.rel,
                     dst: edge.dst,
